@@ -1749,7 +1749,7 @@ class Frame(ContainerOperand):
             else:
                 columns_constructor = cls._COLUMNS_HIERARCHY_CONSTRUCTOR.from_labels
                 columns = columns_constructor(
-                        zip(*(store_filter.to_type_filter_iterable(x) for x in columns_arrays)),
+                        zip(*(store_filter.to_type_filter_iterable(x) if store_filter else x for x in columns_arrays)),
                         name=columns_name,
                         )
             own_columns = True
